@@ -35,6 +35,9 @@ let oracle_c15 (line : string) : string =
         end else if r.kind = "SH" then begin
           if not (c15_show_checkb (zi (int_of_string (field r "W"))) (parse_tree (field r "U")) (parse_tree (field r "T"))) then
             bad := Some (Printf.sprintf "record %d: show did not leave the focus links as demanded (the window becomes its parent's focused child only if the parent has none and the window holds or contains the focus)" k)
+        end else if r.kind = "HI" then begin
+          if not (c15_hide_checkb (zi (int_of_string (field r "W"))) (parse_tree (field r "U")) (parse_tree (field r "T"))) then
+            bad := Some (Printf.sprintf "record %d: hide did not leave the focus links as demanded (the parent's link is dropped exactly when it names the hidden window)" k)
         end else if r.kind = "TF" then begin
           let t = parse_tree (field r "T") in
           match !targets with
